@@ -5,5 +5,5 @@ Extraction Language OCaml.
 Extraction "../ocaml/gen/c03_model.ml"
   dumps escape esc_char digits dec_z truthy
   send_data send_response notify send_request do_send send_ops sender_ops sender_calls stream transport framed
-  spec_decode parse_dec unescape pairfree loads_chars expected send_guard run_schedule
+  spec_decode parse_dec unescape pairfree loads_chars expected send_guard run_schedule seg p_run p_init for_writer
   Z.add Z.mul Z.opp Z.of_N N.add N.mul.
